@@ -283,4 +283,20 @@ example : ∃ out hs, diff [111] [97, 10, 98, 10] [110] [97, 10, 99] = some out 
   let ⟨out, hs, h1, h2, _, h4, _⟩ := diff_roundtrip [111] [97, 10, 98, 10] [110] [97, 10, 99] (by decide)
   ⟨out, hs, h1, h2, h4⟩
 
+/-! ### the consumer: what `cmp` / `cmpenv` log -/
+
+/-- `doCmdCmp` (testscript/cmd.go) logs `diff.Diff(name1, text1, name2, text2)` for exactly the two
+texts it compared (`text2` after env-expansion for `cmpenv`) — read from the source — so for a
+failing comparison the logged bytes parse back to hunks that patch the first compared text into
+the second and back. -/
+theorem cmp_log_is_diff_of_compared_texts (name1 text1 name2 text2 : Bytes) (h : text1 ≠ text2) :
+    Gen.Diff.cmpDiffsComparedTexts = true ∧
+    ∃ out hs, diff name1 text1 name2 text2 = some out ∧ parsePatch name1 name2 out = some hs ∧
+      (apply (lines text1) hs).map unlines = some text2 ∧ (unapply (lines text2) hs).map unlines = some text1 := by
+  refine ⟨by decide, ?_⟩
+  obtain ⟨out, hs, h1, h2, _, h4, h5⟩ := diff_roundtrip name1 text1 name2 text2 h
+  exact ⟨out, hs, h1, h2, h4, h5⟩
+
+example : ([97, 10] : Bytes) ≠ [98, 10] := by decide
+
 end GIV.C08
